@@ -6,7 +6,7 @@ linear_operator/settings.py with `ast` and writes coq/Gen/Settings_gen.v: the cl
 of coq/Models/C20_ir.v.  Anything outside the accepted subset raises common.Unparsed -- nothing is
 ever skipped silently.  What IS deliberately dropped (and why that is sound for the property):
 
-  * docstrings, `pass`, `warnings.warn(...)` statements            (no effect on settings state)
+  * docstrings, `pass`                                             (no effect on settings state)
   * classes that are not context managers (neither define nor inherit __enter__/__exit__), e.g.
     beta_features._moved_beta_feature                               (cannot occur in a with-block)
   * class-body statements that create / configure an opaque helper object from an imported module
@@ -19,6 +19,10 @@ Python semantics assumed by the translation (the trusted part, validated by tie 
 `super().m(..)` resolves from the base of the class that defines the running method; `self.f.m(..)`
 is a method call on the object stored in instance field f; positional/keyword/default argument
 binding; `a if c else b`; `is None`, `is not None`, `==`, `in {literals}`, `not`.
+`warnings.warn(<message>, <category>)` is NOT dropped: it becomes `SWarn "<class>.<method>#<k>"`, a potential
+raise point (the warning filter may turn it into an exception; the model answers that question both ways).
+Its arguments must be side-effect free (string literal / f-string / literal.format(..) over names and
+attributes, a category name, stacklevel=<int>), otherwise Unparsed.
 """
 from __future__ import annotations
 
@@ -92,6 +96,7 @@ class Translator:
         self.ignored = []
         self.called = set(ROOT_METHODS)
         self.opaque_methods = []
+        self.warn_sites = []
 
     # ------------------------------------------------------------------ module level
     def scan_module(self, m: Module):
@@ -239,13 +244,47 @@ class Translator:
                 and isinstance(st.value.func.value, ast.Name) and st.value.func.value.id == "warnings"
                 and "warnings" in env["mod"].plain_modules and st.value.func.attr == "warn")
 
+    def warn_site(self, st, env):
+        """`warnings.warn(..)` -> SWarn site.  The arguments are not modelled, so they must not be able to do
+        anything: no calls except <string literal>.format(..), no subscripts, no operators on non-literals."""
+        call = st.value
+
+        def pure(n, top=False):
+            if isinstance(n, ast.Constant):
+                return True
+            if isinstance(n, ast.Name):
+                return True
+            if isinstance(n, ast.Attribute):
+                return pure(n.value)
+            if isinstance(n, ast.JoinedStr):
+                return all(pure(v) for v in n.values)
+            if isinstance(n, ast.FormattedValue):
+                return pure(n.value) and (n.format_spec is None or pure(n.format_spec))
+            if isinstance(n, ast.BinOp) and isinstance(n.op, ast.Add):
+                return pure(n.left) and pure(n.right)
+            if isinstance(n, ast.Call) and isinstance(n.func, ast.Attribute) and n.func.attr == "format" \
+                    and isinstance(n.func.value, ast.Constant) and isinstance(n.func.value.value, str):
+                return all(pure(a) for a in n.args) and all(k.arg is not None and pure(k.value) for k in n.keywords)
+            return False
+        if any(isinstance(a, ast.Starred) for a in call.args) or any(k.arg is None for k in call.keywords):
+            U(st, "warnings.warn with * / ** arguments")
+        for a in list(call.args) + [k.value for k in call.keywords]:
+            if not pure(a):
+                U(st, "warnings.warn argument outside the subset: %s" % ast.unparse(a)[:60])
+        env["nwarn"] = env.get("nwarn", 0) + 1
+        site = "%s.%s#%d" % (env["cid"], env["fn"], env["nwarn"])
+        self.warn_sites.append(site)
+        return "SWarn %s" % cs(site)
+
     def stmts(self, body, env):
         out = []
         for st in body:
             if isinstance(st, ast.Expr) and isinstance(st.value, ast.Constant) and isinstance(st.value.value, str):
                 continue
-            if isinstance(st, ast.Pass) or self.is_warn(st, env):
+            if isinstance(st, ast.Pass):
                 out.append("SSkip")
+            elif self.is_warn(st, env):
+                out.append(self.warn_site(st, env))
             elif isinstance(st, ast.Expr):
                 out.append("SExpr %s" % self.expr(st.value, env))
             elif isinstance(st, ast.Assign):
@@ -298,7 +337,7 @@ class Translator:
                 U(fn, "method without receiver")
             recv, names = names[0], names[1:]
         star = [x.arg for x in (a.vararg, a.kwarg) if x is not None]
-        env = dict(mod=mod, kind=kind, recv=recv, star=star, locals=set(names) | set(star))
+        env = dict(mod=mod, kind=kind, recv=recv, star=star, locals=set(names) | set(star), cid=cid, fn=fn.name)
         ndef = len(a.defaults)
         params, pinfo = [], []
         for i, nm in enumerate(names):
@@ -442,6 +481,7 @@ class Translator:
     def info(self):
         return dict(classes=[{k: v for k, v in self.entries[c].items() if k != "coq"} for c in self.order],
                     exports=self.exports, ignored=self.ignored,
+                    warn_sites=[w for w in self.warn_sites if w.rsplit(".", 1)[0] in self.order],
                     sources={p: self.mods[p].path for p in self.mods})
 
 
